@@ -22,7 +22,8 @@ func init() {
 	register(&RuleSet{
 		ID:      "C18",
 		Arch386: true,
-		Explanation: "R14 a field that travels with its size is cut out by that size: no decoding function of eventlog / ovmf/abi (reads an io.Reader or []byte, can fail) delimits a value by a content search (Index*, LastIndex*, Cut*, Split*, Trim*, Fields* of bytes/strings). " +
+		Explanation: "R15 (= C04.R11) a loop that examines a slice in whole chunks of k bytes (i+k <= len) leaves no unexamined rest: the length is a multiple of k, or the counter is used behind the loop for the rest. " +
+			"R14 a field that travels with its size is cut out by that size: no decoding function of eventlog / ovmf/abi (reads an io.Reader or []byte, can fail) delimits a value by a content search (Index*, LastIndex*, Cut*, Split*, Trim*, Fields* of bytes/strings). " +
 			"Layouts are extracted from the typed AST of ovmf/abi, sev, tdx and eventlog: for every function and every []byte parameter / local byte array, the constant ranges written and read (binary Put/Get primitives, copy, indexed stores, constant fill loops, delegation of a constant sub-slice to a callee with its own table, range-writer helpers taking (out, lo, hi)). " +
 			"R1 tiling and width: in every writer the ranges are pairwise disjoint; each range is as long as the primitive is wide; for a []byte parameter they tile [0, K) contiguously where K is the function's own length guard (for zero-initialised local arrays gaps are zero bytes and allowed). " +
 			"R2 reader/writer agreement: for every struct type with both a constant-layout writer and reader, range ↦ field is the same map in both. " +
@@ -46,6 +47,9 @@ func init() {
 var c18Pkgs = []string{"ovmf/abi", "sev", "tdx", "eventlog"}
 
 func runC18(c *Ctx) {
+	// R15 = C04.R11 (chunked scans): a check that walks a fixed-layout field in whole chunks (a word at a time) also
+	// looks at the bytes behind the last whole chunk — "non-zero reserved bytes are refused" holds for every byte.
+	c.borrow("R15/C04.", runC04, func(rule, _ string) bool { return rule == "R11" })
 	defer c18SizedNotSearched(c)
 	var pkgs []*packages.Package
 	byPath := map[string]*packages.Package{}
